@@ -1,17 +1,6 @@
-// CONTRACT of traverse::find_symbol, a 10-line adapter around walk_symbols_with_control_flow (closure that answers
-// Break(symbol) when the predicate holds). The walker itself is PROVED in unit v_walksym (visits symbols_of(ast, filter) in
-// order, stops at the first Break and returns it); the adapter is assumed here and compared with a reference traversal by
-// the bounded oracle replay/c15_traversal.rs.
+// class L contract of the (proved, unit v_walksym) symbol walker: the callback is offered symbols_of(ast, filter) in order
+// until it answers Break. The stub hands that sequence to the loop that replaces the higher-order call.
 #[verifier::external_body]
-fn find_symbol<'a, F>(ast: &'a ast::Aidl, filter: SymbolFilter, f: F) -> (r: Option<Symbol<'a>>)
-    where F: FnMut(&Symbol<'a>) -> bool
-    requires forall |s: &Symbol<'a>| #[trigger] f.requires((s,))
-    ensures ({
-        let syms = symbols_of(ast, filter);
-        match r {
-            Some(s) => exists |i: int| 0 <= i < syms.len() && #[trigger] syms[i] == s && f.ensures((&syms[i],), true)
-                        && forall |j: int| 0 <= j < i ==> f.ensures((&#[trigger] syms[j],), false),
-            None => forall |j: int| 0 <= j < syms.len() ==> f.ensures((&#[trigger] syms[j],), false),
-        }
-    })
+fn walk_symbols_order<'a>(ast: &'a ast::Aidl, filter: SymbolFilter) -> (r: Vec<Symbol<'a>>)
+    ensures r@ == symbols_of(ast, filter)
 { unimplemented!() }
